@@ -175,9 +175,20 @@ func (r *WireReader) UnreadByte() error {
 	return nil
 }
 
+// remaining returns the number of bytes between the current position and the end.
+func (r *WireReader) remaining() int {
+	return r.Length() - r.Pos()
+}
+
 func (r *WireReader) ReadWire(l int) (Wire, error) {
+	if l < 0 {
+		return nil, ErrBufferOverflow
+	}
 	if !r.nextSeg() && l > 0 {
 		return nil, io.EOF
+	}
+	if l > r.remaining() {
+		return nil, io.ErrUnexpectedEOF
 	}
 	ret := make(Wire, 0, len(r.wire)-r.seg)
 	for l > 0 {
@@ -199,6 +210,13 @@ func (r *WireReader) ReadWire(l int) (Wire, error) {
 }
 
 func (r *WireReader) ReadBuf(l int) (Buffer, error) {
+	if l < 0 {
+		return nil, ErrBufferOverflow
+	}
+	if l > r.remaining() {
+		// checked before anything is allocated for a copy across segments
+		return nil, io.ErrUnexpectedEOF
+	}
 	if !r.nextSeg() {
 		if l > 0 {
 			return nil, io.ErrUnexpectedEOF
@@ -276,19 +294,23 @@ func (r *WireReader) Skip(n int) error {
 	if n < 0 {
 		return errors.New("encoding.WireReader.Skip: backword skipping is not allowed")
 	}
+	if n > r.remaining() {
+		return io.EOF
+	}
 	r.pos += n
-	for r.pos > len(r.wire[r.seg]) {
+	for r.seg < len(r.wire) && r.pos > len(r.wire[r.seg]) {
 		r.pos -= len(r.wire[r.seg])
 		r.seg++
-		if r.seg >= len(r.wire) {
-			return io.EOF
-		}
 	}
 	return nil
 }
 
 func (r *WireReader) Delegate(l int) ParseReader {
-	if l < 0 || r.seg >= len(r.wire) {
+	if l < 0 || l > r.remaining() {
+		// nil tells the parser that the declared length does not fit
+		return nil
+	}
+	if r.seg >= len(r.wire) {
 		return NewBufferReader([]byte{})
 	}
 	if r.pos+l <= len(r.wire[r.seg]) {
